@@ -58,8 +58,11 @@ func (er *ExchangeRate) Validate() error {
 
 // Convert performs the currency conversion defined by the exchange rate.
 func (er *ExchangeRate) Convert(amount num.Amount) num.Amount {
-	a := amount.Multiply(er.Amount)
 	z := er.To.Def().Zero()
+	// make sure the amount has at least the precision of the destination
+	// currency before multiplying, or subunits would be lost when the
+	// source currency has fewer decimal places (e.g. JPY to EUR).
+	a := amount.RescaleUp(z.Exp()).Multiply(er.Amount)
 	return a.Rescale(z.Exp()) // ensure scale always matches destination currency
 }
 
